@@ -31,7 +31,8 @@ Qed.
 Fixpoint op_ind' (Q : op -> Prop)
   (HC : forall m pos kw pr, Q (OCall m pos kw pr))
   (HW : forall kw blk, Forall Q blk -> Q (OWith kw blk))
-  (HA : forall pos kw blk, Forall Q blk -> Q (OApp pos kw blk))
+  (HA : forall pos kw blk intr, Forall Q blk -> Q (OApp pos kw blk intr))
+  (HB : forall kw blk, Forall Q blk -> Q (OWithCb kw blk))
   (HU : forall kw, Q (OUpdate kw))
   (HR : Q ORaise)
   (HT : forall blk, Forall Q blk -> Q (OTry blk))
@@ -39,12 +40,13 @@ Fixpoint op_ind' (Q : op -> Prop)
   let all := fix all (l : list op) : Forall Q l :=
     match l with
     | [] => Forall_nil Q
-    | x :: t => Forall_cons x (op_ind' Q HC HW HA HU HR HT x) (all t)
+    | x :: t => Forall_cons x (op_ind' Q HC HW HA HB HU HR HT x) (all t)
     end in
   match o with
   | OCall m pos kw pr => HC m pos kw pr
   | OWith kw blk => HW kw blk (all blk)
-  | OApp pos kw blk => HA pos kw blk (all blk)
+  | OApp pos kw blk intr => HA pos kw blk intr (all blk)
+  | OWithCb kw blk => HB kw blk (all blk)
   | OUpdate kw => HU kw
   | ORaise => HR
   | OTry blk => HT blk (all blk)
@@ -83,8 +85,13 @@ Lemma run_op_try : forall c cls blk s,
   run_op c cls (OTry blk) s = let '(ev, s2, _) := run_list (run_op c cls) blk s in (ev, s2, false).
 Proof. reflexivity. Qed.
 
-Lemma run_op_app : forall c cls pos kw blk s,
-  run_op c cls (OApp pos kw blk) s =
+Lemma run_op_withcb : forall c cls kw blk s,
+  run_op c cls (OWithCb kw blk) s =
+  let '(ev, s2, _) := run_list (run_op c cls) blk (s ++ [mkdict kw]) in (ev, removelast s2, true).
+Proof. reflexivity. Qed.
+
+Lemma run_op_app : forall c cls pos kw blk intr s,
+  run_op c cls (OApp pos kw blk intr) s =
   match find_sig cls "application" with
   | None => ([EvCall "application" ([], Some OtherErr)], s, true)
   | Some sg =>
@@ -95,7 +102,8 @@ Lemma run_op_app : forall c cls pos kw blk s,
           | None => ([EvCall "application" ([], Some OtherErr)], s, true)
           | Some a =>
               let '(ev, s2, r) := run_list (run_op c cls) blk (s ++ [mkdict [("app_id", a)]]) in
-              let out := call FUEL c cls "send_signal" s2 [stop_signal] [] in
+              let out0 := call FUEL c cls "send_signal" s2 [stop_signal] [] in
+              let out := if intr then interrupted out0 else out0 in
               (ev ++ [EvStop out], removelast s2, r || has_err out)
           end
       end
@@ -120,6 +128,11 @@ Proof.
                             (s ++ [mkdict [("app_id", a)]])) as G.
     destruct (run_list (run_op c cls) blk (s ++ [mkdict [("app_id", a)]])) as [[ev s2] r].
     unfold st in *. simpl in *.
+    destruct (same_below_snoc _ _ _ G) as [a' E]. subst s2. rewrite removelast_last. apply same_below_refl.
+  - rewrite run_op_withcb.
+    pose proof (run_list_st (run_op c cls) same_below same_below_refl same_below_trans blk H
+                            (s ++ [mkdict kw])) as G.
+    destruct (run_list (run_op c cls) blk (s ++ [mkdict kw])) as [[ev s2] r]. unfold st in *. simpl in *.
     destruct (same_below_snoc _ _ _ G) as [a' E]. subst s2. rewrite removelast_last. apply same_below_refl.
   - simpl. destruct (update_last kw s) eqn:E; unfold st; simpl.
     + apply update_last_same_below with kw. exact E.
@@ -148,7 +161,7 @@ Proof.
 Qed.
 
 (* ... an application block, including when application() itself is rejected *)
-Theorem exit_restores_app : forall c cls pos kw blk s, st (run_op c cls (OApp pos kw blk) s) = s.
+Theorem exit_restores_app : forall c cls pos kw blk intr s, st (run_op c cls (OApp pos kw blk intr) s) = s.
 Proof.
   intros. rewrite run_op_app.
   destruct (find_sig cls "application") as [sg|]; [|reflexivity].
@@ -160,6 +173,15 @@ Proof.
   destruct (same_below_snoc _ _ _ G) as [a' E]. subst s2. apply removelast_last.
 Qed.
 
+(* ... a block whose exit callback raises -- an Exception or a BaseException such as KeyboardInterrupt *)
+Theorem exit_restores_withcb : forall c cls kw blk s, st (run_op c cls (OWithCb kw blk) s) = s.
+Proof.
+  intros. rewrite run_op_withcb.
+  pose proof (run_ops_frame c cls blk (s ++ [mkdict kw])) as G. unfold run_ops in G.
+  destruct (run_list (run_op c cls) blk (s ++ [mkdict kw])) as [[ev s2] r]. unfold st in *. simpl in *.
+  destruct (same_below_snoc _ _ _ G) as [a' E]. subst s2. apply removelast_last.
+Qed.
+
 (* an op that does not call update_current_context at its own level leaves the whole stack as it was *)
 Lemma run_op_no_update : forall c cls o s, updates_here o = false -> st (run_op c cls o s) = s.
 Proof.
@@ -167,6 +189,7 @@ Proof.
   - reflexivity.
   - apply exit_restores_with.
   - apply exit_restores_app.
+  - apply exit_restores_withcb.
   - discriminate.
   - reflexivity.
   - rewrite run_op_try. simpl in Hu.
@@ -192,17 +215,17 @@ Qed.
 (* leaving an application block: the block's events, then exactly one stop event -- the
    send_signal("stop") call resolved against the stack as it stands (the block's own context innermost) --
    and the stack is restored *)
-Theorem application_exit : forall c cls pos kw blk s sg e a,
+Theorem application_exit : forall c cls pos kw blk (intr : bool) s sg e a,
   find_sig cls "application" = Some sg -> resolve sg s pos kw = Some e ->
   sassoc "app_id" (e_args e) = Some a ->
   exists evb fr rb,
     run_ops c cls blk (s ++ [mkdict [("app_id", a)]]) = (evb, s ++ [fr], rb)
     /\ (no_update_here blk -> fr = mkdict [("app_id", a)])
-    /\ run_op c cls (OApp pos kw blk) s
-       = (evb ++ [EvStop (call FUEL c cls "send_signal" (s ++ [fr]) [stop_signal] [])], s,
-          rb || has_err (call FUEL c cls "send_signal" (s ++ [fr]) [stop_signal] [])).
+    /\ let out0 := call FUEL c cls "send_signal" (s ++ [fr]) [stop_signal] [] in
+       let out := if intr then interrupted out0 else out0 in
+       run_op c cls (OApp pos kw blk intr) s = (evb ++ [EvStop out], s, rb || has_err out).
 Proof.
-  intros c cls pos kw blk s sg e a Hs Hr Ha.
+  intros c cls pos kw blk intr s sg e a Hs Hr Ha.
   rewrite run_op_app, Hs, Hr, Ha.
   pose proof (run_ops_frame c cls blk (s ++ [mkdict [("app_id", a)]])) as G.
   pose proof (run_ops_no_update c cls blk (s ++ [mkdict [("app_id", a)]])) as N.
